@@ -654,14 +654,71 @@ pub fn icmpv6(s: &mut Sink, i: &Icmpv6Slice) {
                     s.dbg("rd", &(v.target_address(), v.destination_address()));
                     drive_ndp_options(s, "rd.opt", v.options_iterator());
                 }
-                DestinationUnreachable(v) => s.sl("invoking", v.invoking_packet()),
+                DestinationUnreachable(v) => {
+                    s.sl("du.slice", v.slice());
+                    s.sl("invoking", v.invoking_packet());
+                    quoted(s, v.as_lax_ip_slice());
+                }
+                PacketTooBig(v) => {
+                    s.sl("ptb.slice", v.slice());
+                    s.sl("invoking", v.invoking_packet());
+                    quoted(s, v.as_lax_ip_slice());
+                }
+                TimeExceeded(v) => {
+                    s.sl("te.slice", v.slice());
+                    s.sl("invoking", v.invoking_packet());
+                    quoted(s, v.as_lax_ip_slice());
+                }
+                ParameterProblem(v) => {
+                    s.sl("pp.slice", v.slice());
+                    s.sl("invoking", v.invoking_packet());
+                    quoted(s, v.as_lax_ip_slice());
+                }
+                EchoRequest(v) => {
+                    s.sl("echo.slice", v.slice());
+                    s.sl("echo.data", v.data());
+                }
+                EchoReply(v) => {
+                    s.sl("echo.slice", v.slice());
+                    s.sl("echo.data", v.data());
+                }
                 Raw(r) => s.sl("raw", r),
                 _ => {}
+            }
+            // conversion into the owned payload + the part that stays borrowed
+            match p.to_payload() {
+                Some((owned, rest)) => {
+                    s.dbg("ps.owned", &owned);
+                    s.sl("ps.rest", rest);
+                }
+                None => s.dbg("ps.owned", &"-"),
+            }
+            match i.icmp_type().payload_from_slice(i.payload()) {
+                Ok(Some((owned, rest))) => {
+                    s.dbg("pfs.owned", &owned);
+                    s.sl("pfs.rest", rest);
+                }
+                Ok(None) => s.dbg("pfs", &"-"),
+                Err(e) => s.dbg("pfs.err", &e),
             }
         }
         Err(e) => {
             s.dbg("ps_err", &e);
             s.disp("msg", &e);
+        }
+    }
+}
+/// the packet quoted by an ICMPv6 error message, decoded leniently (one level deep: a quoted ICMP error inside it is
+/// not followed again)
+fn quoted(s: &mut Sink, r: Result<(LaxIpSlice, Option<(err::ipv6_exts::HeaderSliceError, err::Layer)>), err::ip::LaxHeaderSliceError>) {
+    match r {
+        Ok((ip, stop)) => {
+            lax_ip(s, &ip);
+            s.dbg("quoted.stop", &stop);
+        }
+        Err(e) => {
+            s.dbg("quoted.err", &e);
+            s.disp("quoted.msg", &e);
         }
     }
 }
